@@ -92,3 +92,18 @@ META.update({
         note=_GW_NOTE + " Only per-packet rules are judged; repeated CONNECTs and QoS -1 PUBLISH before CONNECT are excluded as the property says.",
         technique="stateful PBT; oracle = MQTT 3.1.1 validator with clause citations"),
 })
+CHECKS["C11"] = dict(parts=[part("sleep-buffering", "gw", "TestC11", 3000, 150_000)])
+CHECKS["C12"] = dict(parts=[part("broker-keepalive-kept", "gw", "TestC12", 2000, 100_000)])
+CHECKS["C34"] = dict(parts=[part("vanished-clients-reaped", "gw", "TestC34", 2000, 100_000)])
+META.update({
+    "C11": dict(
+        text="Exploration: generated sleep cycles (1-4 cycles x 1-3 wake-ups) with uniquely tagged broker publishes at drawn offsets around RetryDelay, including publishes injected at the same instant as the PINGREQ and between PINGRESP and the next wake-up; a client-state model per the project's specification interpretation judges silence while asleep, exactly-once in-order delivery in the wake-up flush followed by PINGRESP, and completeness once the client is active again.",
+        note=_GW_NOTE + " Same-instant (racing) publishes run without a settling barrier so both receive loops really run concurrently; which flush they land in is not constrained.",
+        technique="stateful PBT with a sleep-state reference model and tagged messages; virtual time; same-instant injection for races"),
+    "C12": dict(
+        text="Exploration: generated timed histories over 6-20 keep-alive periods in which the client meets its own obligations (activity within K, wake-ups within D for D<K, =K, >K, >>K, re-announced sleeps, returns to active); the oracle measures, on the virtual clock, every gap between consecutive writes to the broker connection against 1.5 x K.",
+        note=_GW_NOTE, technique="PBT over obligation-meeting timed histories (constructed, not filtered); oracle = max-gap over virtual timestamps"),
+    "C34": dict(
+        text="Exploration: generated session prefixes after which the client is silent forever, against a broker that enforces the MQTT keep-alive and the missing-CONNECT timeout on the virtual clock; the oracle bounds the time from the client's last packet to the end of the session per state (connecting, active, asleep, woken, reconnected).",
+        note=_GW_NOTE + " 'Never' is observed as 'not within the bound plus 3 K + 2 s'.", technique="PBT with a time-enforcing model broker on a virtual clock; bounded-liveness oracle"),
+})
